@@ -522,6 +522,17 @@ theorem tbEquals_iff {α} [DecidableEq δ] (veq : α → α → Bool) (o : Opts)
     · rw [if_neg hd]
       have hd' : o.compareDtype = true → a.dtypes = b.dtypes := by
         intro h; simp [h] at hd; exact hd
+      by_cases hemp : a.blocks.isEmpty = true
+      · -- the zero-column shortcut: no value to compare
+        rw [if_pos hemp]
+        have ha0 : a.columns = [] := by
+          have : a.blocks = [] := List.isEmpty_iff.mp hemp
+          simp [TB.columns, this]
+        have hb0 : b.columns = [] := by
+          have : b.columns.length = 0 := by rw [← hlen, ha0]; rfl
+          exact List.length_eq_zero_iff.mp this
+        simp [ha0, hb0, hrows]; exact hd'
+      rw [if_neg hemp]
       cases hsk : o.skipna
       · simp only [Bool.false_eq_true, if_false]
         rw [eqLoop_none]
@@ -746,23 +757,6 @@ end Rel
 
 section HK
 variable {ν δ κ α : Type} {veq : α → α → Bool}
-
-theorem hashKey_eq {η : Type} {h : Cell α → η} (hh : HashRespects veq h) {o : Opts} (hs : o.skipna = true) :
-    ∀ {a b : Axis ν δ κ α}, Axis.Spec veq o a b → a.hashKey h = b.hashKey h
-  | .flat x, .flat y, s => by
-    have : All2 (fun p q => h p = h q) x.labels y.labels := s.1.imp fun p q k => hh p q (hs ▸ k)
-    simp only [Axis.hashKey]
-    congr 1
-    generalize x.labels = l at this
-    generalize y.labels = l'  at this
-    induction l generalizing l' with
-    | nil => cases l' <;> simp_all
-    | cons p ps ih => cases l' with
-      | nil => simp at this
-      | cons q qs => simp at this; simp [this.1, ih qs this.2]
-  | .hier _, .hier _, _ => rfl
-  | .flat _, .hier _, s => s.elim
-  | .hier _, .flat _, s => s.elim
 
 end HK
 
@@ -1057,5 +1051,44 @@ theorem Level.rowsZip_of_eqv (o : Opts) : ∀ (xs : List (Cell α)) (ts : List (
 end
 
 end Rows
+
+/-! ### hash of the labels -/
+
+section HK2
+variable {ν δ κ α : Type} {veq : α → α → Bool}
+
+theorem map_hash_eq {η : Type} {h : Cell α → η} (hh : HashRespects veq h) : ∀ {l l' : List (Cell α)},
+    All2 (cellOk veq true) l l' → l.map h = l'.map h
+  | [], [], _ => rfl
+  | [], _ :: _, k => k.elim
+  | _ :: _, [], k => k.elim
+  | p :: ps, q :: qs, k => by
+    simp only [List.map_cons, hh p q k.1, map_hash_eq hh k.2]
+
+theorem rows_hash_eq {η : Type} {h : Cell α → η} (hh : HashRespects veq h) (mix : List η → η) :
+    ∀ {R R' : List (List (Cell α))}, All2 (All2 (cellOk veq true)) R R' →
+    (R.map fun r => mix (r.map h)) = R'.map fun r => mix (r.map h)
+  | [], [], _ => rfl
+  | [], _ :: _, k => k.elim
+  | _ :: _, [], k => k.elim
+  | r :: rs, r' :: rs', k => by
+    simp only [List.map_cons, map_hash_eq hh k.1, rows_hash_eq hh mix k.2]
+
+/-- the hashed label tuple is a function of the label content: `==`-equal axes hash alike -/
+theorem labelHashes_eq {η : Type} {h : Cell α → η} (hh : HashRespects veq h) (mix : List η → η) {o : Opts}
+    (hs : o.skipna = true) :
+    ∀ {a b : Axis ν δ κ α}, Axis.Spec veq o a b → a.labelHashes h mix = b.labelHashes h mix
+  | .flat x, .flat y, s => by
+    simp only [Axis.labelHashes]
+    exact map_hash_eq hh (hs ▸ s.1)
+  | .hier x, .hier y, s => by
+    simp only [Axis.labelHashes]
+    have := Level.rows_of_eqv o x.levels y.levels s.2.1
+    rw [hs] at this
+    exact rows_hash_eq hh mix this
+  | .flat _, .hier _, s => s.elim
+  | .hier _, .flat _, s => s.elim
+
+end HK2
 
 end SF.Equals
